@@ -380,11 +380,18 @@ class Parser:
             raise JSONPathSyntaxError("invalid float literal", token=stream.current)
 
         try:
-            return FloatLiteral(stream.current, value=float(stream.current.value))
+            number = float(stream.current.value)
         except ValueError as err:
             raise JSONPathSyntaxError(
                 "invalid float literal", token=stream.current
             ) from err
+
+        if number in (float("inf"), float("-inf")):
+            # Like an integer literal with a huge exponent. There's no way to
+            # write an infinity in a JSONPath query, so str() could not either.
+            raise JSONPathSyntaxError("float literal out of range", token=stream.current)
+
+        return FloatLiteral(stream.current, value=number)
 
     def parse_prefix_expression(self, stream: TokenStream) -> Expression:
         tok = stream.next_token()
